@@ -5,7 +5,7 @@ from ..gen import Opt, schema_lines, LIST, MULTI, TITLE, NOCASE, dbits
 
 THEOREMS = ["C14_parse_callback", "C14_parse_callback_str", "C14_stored_value", "C14_valid_after_store", "C14_func_args",
             "C14_failure_stops", "C14_preset", "C14_log_monotone", "C14_step_monotone", "C14_items_in_order",
-            "C01_assign_general", "setopt_int_cb", "C14_assign_trace"]
+            "C01_assign_general", "setopt_int_cb", "C14_assign_trace", "C14_list_trace", "list_tail_loop_valid", "pstep_value_list_valid", "pstep_close_list_valid", "validsOk_of_never_fails"]
 PARTIAL = ("Proved for an arbitrary callback oracle: the parse callback gets exactly the decoded token and its result is what is stored (or the value is "
            "refused); right after a stored value the next invocation is the option's validation callback with a snapshot containing that value, and a "
            "non-zero verdict rejects the parse; function callbacks receive the collected arguments in order; after a rejection no later token changes "
